@@ -211,15 +211,17 @@ def pad_sessions(rec, thorough):
             agent = ag.Agent(engine=cfg.engine)
             for k in range(20 if not thorough else 48):
                 oid = "1.3.6.1.4.1" + "".join(".%d" % ((j * 11 + k) % 120 + 1) for j in range(k % 17))
-                w, exc = sess.send("get", [oid])
+                op = ["get", "getnext", "getbulk", "get_many"][k % 4]
+                w, exc = sess.send(op, [oid] if op != "get_many" else [oid, oid + ".1"], maxrep=3 if op == "getbulk" else None)
                 if w is None:
                     continue
                 if mode == 0 or (mode == 1 and k % 3 == 0):
                     req = ag.Request(cfg, w)
                     if not req.broken and req.names:
                         secret = b"enable-secret=%d-TOPSECRET-" % k + bytes(range(65, 65 + (k * 5) % 23))
-                        sess.inject(agent.reply(cfg, req, [(bytes(req.names[0]), ("octets", secret))]))
-                    sess.recv("get")
+                        name = bytes(req.names[0]) + (bytes([1]) if op in ("getnext", "getbulk") else b"")
+                        sess.inject(agent.reply(cfg, req, [(name, ("octets", secret))]))
+                    sess.recv(op)
             sess.close()
             runs.append((a, rec.n, dict(kind="pad", cfg=cn, mode=mode)))
     return runs
